@@ -561,7 +561,7 @@ CHANNELS = ["argv_eq", "argv_sp", "cfg_str_nested", "cfg_str_dotted", "cfg_file"
             "doc_word", "obj_word"]
 MODEL_CHANNEL = {"argv_eq": "argv", "argv_sp": "argv", "cfg_str_nested": "cfgNested", "cfg_str_dotted": "cfgDotted", "cfg_file": "cfgNested",
                  "parse_string": "cfgNested", "parse_path": "cfgNested", "obj_nested": "objNested", "obj_dotted": "objDotted", "env": "env",
-                 "mode_json": "cfgNested", "mode_jsonnet": "cfgNested", "mode_omegaconf": "cfgNested", "parse_env": "env", "env_bare": "env", "doc_word": "cfgNested", "obj_word": "objNested"}
+                 "mode_json": "cfgNested", "mode_jsonnet": "cfgNested", "mode_omegaconf": "cfgNested", "parse_env": "env", "env_bare": "env"}     # doc_word / obj_word (a word as a string in a document) are oracle only
 _MODES = None
 _NEG_NUM = re.compile(r"^-\d+$|^-\d*\.\d+$")
 
@@ -889,12 +889,22 @@ def judge(ctx: Ctx, case, origin):
 
 # ---------------------------------------------------------------- model side: wire formats
 SAFE_RE = re.compile(r'^[ !#-\[\]-~]*$')     # printable ASCII without '"' and '\\'
+TOKEN_RE = re.compile(r'^-?(0|[1-9][0-9]*)(\.[0-9]+)?([eE][+-]?[0-9]+)?$')
+
+
+def is_token(t):
+    """a JSON number token that is not an integer literal (the model's NumTok)"""
+    return bool(TOKEN_RE.match(t)) and any(c in t for c in ".eE")
 
 
 def in_grammar(v):
-    """value of the model's grammar: int, bool, None, safe str, flat list of those, dict str -> int"""
+    """value of the model's grammar: int, bool, None, safe str, float token, flat list of those, dict str -> int, yes/no word"""
     def scalar(x):
-        return x is None or isinstance(x, (bool, int)) or (isinstance(x, str) and bool(SAFE_RE.match(x)))
+        return x is None or isinstance(x, (bool, int)) or (isinstance(x, str) and bool(SAFE_RE.match(x))) or (is_f(x) and is_token(x["$f"]))
+    if is_b(v):
+        return True
+    if is_f(v):
+        return scalar(v)
     if isinstance(v, list):
         return all(scalar(x) for x in v)
     if isinstance(v, dict):
@@ -902,16 +912,61 @@ def in_grammar(v):
     return scalar(v)
 
 
+def default_in_grammar(d):
+    """defaults are Python values: a float is carried as the token repr() writes"""
+    def ok(x):
+        if isinstance(x, float):
+            return is_token(repr(x))
+        return in_grammar(x)
+    if isinstance(d, list):
+        return all(ok(x) for x in d)
+    return ok(d)
+
+
 def wire_val(v):
+    if is_f(v):
+        return {"f": v["$f"]}
+    if is_b(v):
+        return {"yn": {"word": v["$b"], "negWord": opposite_word(v["$b"]) if v.get("neg") else None}}
+    if isinstance(v, list):
+        return [wire_val(x) for x in v]
     if isinstance(v, dict):
         return {"d": [[k, x] for k, x in v.items()]}
     return v
 
 
 def unwire_val(j):
+    """model wire value -> the Python value it stands for"""
     if isinstance(j, dict) and "d" in j:
         return {k: x for k, x in j["d"]}
+    if isinstance(j, dict) and "f" in j:
+        return float(j["f"])
+    if isinstance(j, dict) and "yn" in j:
+        return j["yn"]["word"].lower() in ("true", "yes")
+    if isinstance(j, list):
+        return [unwire_val(x) for x in j]
     return j
+
+
+def norm_floats(w):
+    """floats compare by repr of the float the token denotes (never numerically, never by spelling)"""
+    if isinstance(w, dict) and "f" in w:
+        return {"f": repr(float(w["f"]))}
+    if isinstance(w, dict) and "d" in w:
+        return {"d": [[k, norm_floats(v)] for k, v in w["d"]]}
+    if isinstance(w, dict) and "n" in w:
+        return {"n": [[k, norm_floats(v)] for k, v in w["n"]]}
+    if isinstance(w, list):
+        return [norm_floats(v) for v in w]
+    return w
+
+
+def wire_kind(a):
+    if a["hint"] == "yesno":
+        return {"yesno": {None: "bare", "?": "opt", 1: "one"}[a.get("yn")]}
+    if a.get("nargs") is not None:
+        return {"nlist": [{1: "n1", 2: "n2", "+": "plus", "*": "star"}[a["nargs"]], a["hint"] in RAW_HINTS]}
+    return "raw" if a["hint"] in RAW_HINTS else "json"
 
 
 def wire_parser(spec):
@@ -919,7 +974,7 @@ def wire_parser(spec):
     if prefix is True:
         prefix = os.path.splitext(spec["prog"])[0]
     return {"prefix": prefix if isinstance(prefix, str) else None,
-            "decls": [{"key": a["key"].split("."), "raw": a["hint"] in RAW_HINTS} for a in spec["args"] if a["key"] not in foreign_keys(spec)]}
+            "decls": [{"key": a["key"].split("."), "kind": wire_kind(a)} for a in spec["args"] if a["key"] not in foreign_keys(spec)]}
 
 
 def wire_ns_of_canon(c):
@@ -937,6 +992,8 @@ def wire_ns_of_canon(c):
         return int(c[1])
     if t in ("b", "s"):
         return c[1]
+    if t == "f":
+        return {"f": c[1]}
     if t == "E":
         return c[1]
     raise ValueError(c)
@@ -953,17 +1010,14 @@ def sort_dict_items(w):
     return w
 
 
-FOREIGN_HINTS = ("float", "ufloat", "listfloat", "yesno")
-
-
 def foreign_keys(spec):
-    """arguments the Channels model does not have (list-valued options, floats, yes/no actions): when no setting touches them
-    they are left out of the model parser and their keys are removed from the real namespaces before the comparison"""
-    return {a["key"] for a in spec["args"] if a.get("nargs") is not None or a["hint"] in FOREIGN_HINTS or not in_grammar(a["default"])}
+    """arguments the Channels model cannot hold (a default outside the grammar): when no setting touches them they are left out
+    of the model parser and their keys are removed from the real namespaces before the comparison"""
+    return {a["key"] for a in spec["args"] if not default_in_grammar(a["default"])}
 
 
 def outside_model(case):
-    """parser features the Channels model does not have: sub-commands, or a setting for a foreign argument"""
+    """what the Channels model does not have: sub-commands, or a setting for a foreign argument"""
     fk = foreign_keys(case["spec"])
     return bool(case["spec"].get("sub")) or any(k in fk for k, _ in case["settings"])
 
@@ -990,7 +1044,17 @@ def model_ok(case):
     """is the case inside the model's grammar (values; Enum by name), and valid or unknown-key?"""
     if case["kind"] not in ("valid", "unknown") or clash_args(case) or outside_model(case):
         return False
-    return all(in_grammar(v) for _, v in case["settings"])
+    for k, v in case["settings"]:
+        a = arg_of(case["spec"], k)
+        if not in_grammar(v):
+            return False
+        if is_b(v) != (a is not None and a["hint"] == "yesno"):
+            return False
+        if a is not None and a["hint"] in ("float", "ufloat", "listfloat"):
+            # an integer literal at a float position ('3' -> 3.0) is the type adapter's conversion (C02), not a token of the model
+            if not all(is_f(x) for x in (v if isinstance(v, list) else [v])):
+                return False
+    return True
 
 
 def defaults_canon(spec):
@@ -1085,12 +1149,16 @@ def correspond_text(ctx: Ctx, rng, n):
         v = gen_value(rng, h)
         if in_grammar(v):
             vals.append(v)
-    vals = [v for v in vals if in_grammar(v)]
+    toks = [t for t in FLOAT_SPELLINGS if is_token(t)]
+    vals += [{"$f": t} for t in toks] + [[{"$f": "1e5"}, 2, {"$f": "-2.25"}], [{"$f": "2E3"}]]
+    vals += [[{"$f": rng.choice(toks)} for _ in range(rng.randint(1, 3))] for _ in range(10)]
+    vals = [v for v in vals if in_grammar(v) and not is_b(v)]
     lines = [{"op": "text", "v": wire_val(v)} for v in vals]
     # near misses and look-alikes: the reader must either refuse them or agree with every loader
-    texts = list(BASIC_TEXTS) + [json.dumps(v) for v in vals[:40]]
+    texts = list(BASIC_TEXTS) + [jdumps(v) for v in vals[:40]] + toks + [
+        "1.", ".5", "01.5", "1e", "1E+", "-.5e1", "1e5 ", " 2E3", "1e+5", "1E05", "0e0", "-0.0", "1.5e", "1.5.2", "1e5e2", "+1e5", "1_0e2", "0x1e5"]
     for v in vals[:60]:
-        t = json.dumps(v)
+        t = jdumps(v)
         texts += [" " + t, t + " ", t.replace(", ", ","), t.replace(": ", ":"), t.replace("1", "01", 1), t.upper(), t.replace('"', "'")]
     texts += LOOKALIKE
     texts = sorted(set(texts))
@@ -1109,12 +1177,12 @@ def correspond_text(ctx: Ctx, rng, n):
         m = res[pos]
         pos += 1
         ctx.count()
-        want = json.dumps(v)
+        want = jdumps(v)
         if m.get("t") != want or m.get("arg") != text_of(v):
             ctx.tie_break("correspondence textOf vs json.dumps disagrees", json.dumps({"v": v, "real": want, "model": m}, ensure_ascii=True))
             return
         back = m.get("back")
-        if not m.get("safe") or back is None or canon_loaded(unwire_val(back["some"])) != canon_loaded(v):
+        if not m.get("safe") or back is None or canon_loaded(unwire_val(back["some"])) != canon_loaded(unwire_val(wire_val(v))):
             ctx.tie_break("model: loadText (textOf v) is not v", json.dumps({"v": v, "model": m}, ensure_ascii=True))
             return
         ctx.nontrivial("text:" + want)
@@ -1140,6 +1208,8 @@ def correspond_text(ctx: Ctx, rng, n):
         for mode in modes:
             if mode == "jsonnet" and any(abs(i) > 2**53 for i in all_ints(unwire_val(mv["some"]))):
                 continue    # jsonnet numbers are doubles (evaluator is an oracle)
+            if mode == "jsonnet" and '"f"' in json.dumps(mv["some"]):
+                continue    # jsonnet re-prints numbers (1e5 -> 100000, an int for the yaml loader): evaluator is an oracle
             if mode == "omegaconf" and "${" in t:
                 continue    # omegaconf interpolation (evaluator is an oracle)
             try:
@@ -1175,6 +1245,30 @@ def correspond_text(ctx: Ctx, rng, n):
             return
     ctx.extra["texts_checked"] = len(texts)
     ctx.extra["texts_loaded_by_model"] = loaded_by_model
+
+
+def correspond_yesno(ctx: Ctx, rng):
+    """boolWord (model of ActionYesNo._boolean_type on words, table regenerated from the source) vs the real function"""
+    from jsonargparse import ActionYesNo
+
+    words = set(YES_WORDS + NO_WORDS + ["abc", "1", "0", "on", "off", "y", "n", "TRUE ", " true", "", "tru", "yess", "Nope", "t", "f", "None", "null"])
+    for base in ("true", "yes", "false", "no", "maybe", "ye"):
+        for _ in range(12):
+            words.add("".join(c.upper() if rng.random() < 0.5 else c for c in base))
+    words = sorted(words)
+    res = model_batch(ctx, [{"op": "yn", "t": w} for w in words])
+    if res is None:
+        return
+    for w, m in zip(words, res):
+        ctx.count()
+        try:
+            real = ActionYesNo._boolean_type(w)
+        except TypeError:
+            real = None
+        if m.get("v") is not real:
+            ctx.tie_break("correspondence boolWord vs ActionYesNo._boolean_type disagrees", json.dumps({"word": w, "real": real, "model": m.get("v")}))
+            return
+    ctx.extra["yesno_words_checked"] = len(words)
 
 
 def model_batch(ctx: Ctx, lines):
@@ -1230,7 +1324,7 @@ def correspond_channels(ctx: Ctx, cases_outs):
         if not model_ok(case):
             why = "kind " + case["kind"] if case["kind"] not in ("valid", "unknown") else (
                 "clash-named argument, open finding" if clash_args(case) else (
-                    "sub-commands / setting for a nargs, float or yes-no argument: outside the model" if outside_model(case) else "value outside the grammar"))
+                    "sub-commands: outside the model" if outside_model(case) else "value outside the grammar"))
             ctx.hist("model_routing", "oracle only (%s)" % why)
             continue
         ctx.hist("model_routing", "model and oracle")
@@ -1254,17 +1348,18 @@ def correspond_channels(ctx: Ctx, cases_outs):
         if what == "render":
             src = m["src"][mc]
             if mc == "argv":
-                want = ["--%s=%s" % (k, text_of(v)) for k, v in settings]
+                src = [t for g in src for t in g]
+                want = argv_of(case, True)
             elif mc == "env":
                 want = [[k, v] for k, v in env_of(spec, settings).items()]
                 if len(want) != len(settings):
                     continue
             elif mc == "cfgDotted":
-                want = [[k, json.dumps(v)] for k, v in settings]
+                want = [[k, jdumps(v)] for k, v in settings]
             elif mc == "objDotted":
                 want = [[k, wire_val(v)] for k, v in settings]
             elif mc == "cfgNested":
-                want = [[p, json.dumps(v)] for p, v in leaves_of_nested(nested_branches(settings))]
+                want = [[p, jdumps(v)] for p, v in leaves_of_nested(nested_branches(settings))]
             else:
                 want = [[p, wire_val(v)] for p, v in leaves_of_nested(nested_branches(settings))]
             if src != want:
@@ -1273,7 +1368,7 @@ def correspond_channels(ctx: Ctx, cases_outs):
                 return
             continue
         # apply
-        reals = [(ch, o) for ch, o in outs.items() if MODEL_CHANNEL[ch] == mc and "skip" not in o]
+        reals = [(ch, o) for ch, o in outs.items() if MODEL_CHANNEL.get(ch) == mc and "skip" not in o]
         if case["kind"] == "unknown" and mc == "env":
             continue
         mr = m.get("r")
@@ -1289,7 +1384,7 @@ def correspond_channels(ctx: Ctx, cases_outs):
                               json.dumps({"case": case, "msg": o.get("msg")}, ensure_ascii=True)[:1500])
                 return
             real_ns = wire_ns_of_canon(drop_keys(o["ok"], foreign_keys(case["spec"])))
-            if json.dumps(sort_dict_items(real_ns), ensure_ascii=True) != json.dumps(sort_dict_items(mr["some"]), ensure_ascii=True):
+            if json.dumps(sort_dict_items(real_ns), ensure_ascii=True) != json.dumps(sort_dict_items(norm_floats(mr["some"])), ensure_ascii=True):
                 ctx.tie_break("correspondence apply(render %s) vs the namespace returned through %s disagrees" % (mc, ch),
                               json.dumps({"case": case, "real": real_ns, "model": mr["some"]}, ensure_ascii=True)[:1800])
                 return
@@ -1320,7 +1415,7 @@ def run(ctx: Ctx):
         "defaults are in normal form (finding 15e concerns non-normal defaults, property C10)",
         "key names and env prefixes are ASCII (str.upper on non-ASCII is outside the envVar model)",
     ]
-    ctx.lean_build(extractors=["ns_tables"])
+    ctx.lean_build(extractors=["ns_tables", "yesno_words"])
     ctx.extra["parser_modes_available"] = dict(available_modes())
 
     from ..lib import corpus as corpus_mod
@@ -1341,6 +1436,7 @@ def run(ctx: Ctx):
     # --- correspondence of the addressing and text layers (before the oracle: a broken tie boosts the search)
     correspond_envvar(ctx, ctx.rng, ctx.budget(300, 3000))
     correspond_text(ctx, ctx.rng, ctx.budget(300, 3000))
+    correspond_yesno(ctx, ctx.rng)
     if ctx.search_boost > 1:    # a tie is broken: search harder for a concrete failing input
         for _ in range(ctx.budget(2 * n_random, n_random // 2)):
             cases.append((gen_case(ctx.rng), "generated (boosted)"))
